@@ -16,16 +16,24 @@ func init() {
 //	a: mov.i #x, b      ; forward reference to b, EQU use
 //	   dat   #v, a      ; backward reference to a
 //	b: jmp   a, x+1
+//	   nop   -w, -w-1
 //	   entry: none | org b | end a | end (no operand)
 //
-// meaning: [MOV.I #e, $2] [DAT.F #v, #-1] [JMP.B $-2, $e+1], entry 0 | 2 | 0 | 0.
+// meaning: [MOV.I #e, $2] [DAT.F #v, #-1] [JMP.B $-2, $e+1] [NOP.B $-w, $-w-1], entry 0 | 2 | 0 | 0.
 func vC03meaning(M Address, e, v int, entry int) ([]Instruction, int) {
+	return vC03meaningW(M, e, v, -1, entry)
+}
+
+func vC03meaningW(M Address, e, v, w int, entry int) ([]Instruction, int) {
 	m := int(M)
 	red := func(x int) Address { return Address(((x % m) + m) % m) }
 	code := []Instruction{
 		{Op: MOV, OpMode: I, AMode: IMMEDIATE, A: red(e), BMode: DIRECT, B: red(2)},
 		{Op: DAT, OpMode: F, AMode: IMMEDIATE, A: red(v), BMode: IMMEDIATE, B: red(-1)},
 		{Op: JMP, OpMode: B, AMode: DIRECT, A: red(-2), BMode: DIRECT, B: red(e + 1)},
+	}
+	if w >= 0 {
+		code = append(code, Instruction{Op: NOP, OpMode: B, AMode: DIRECT, A: red(-w), BMode: DIRECT, B: red(-w - 1)})
 	}
 	start := 0
 	if entry == 1 {
@@ -89,6 +97,11 @@ func VerifHarness_C03_symbols() {
 	fill()
 	label(lb)
 	t = append(t, tText(ops[2]), tText(la), tComma, tText(lx), tSym("+"), tNum(1), tNL)
+	// negative operands, also below -M
+	wv := vInt("w")
+	vAssume(wv >= 0)
+	vAssume(wv <= 100000)
+	t = append(t, tText("nop"), tSym("-"), tNum(wv), tComma, tSym("-"), tNum(wv), tSym("-"), tNum(1), tNL)
 	if equPos == 2 {
 		equ()
 	}
@@ -107,7 +120,7 @@ func VerifHarness_C03_symbols() {
 	if err != nil {
 		return
 	}
-	want, start := vC03meaning(M, e, v, entry)
+	want, start := vC03meaningW(M, e, v, wv, entry)
 	vAssert("denoted-length", len(w.Code) == len(want))
 	if len(w.Code) != len(want) {
 		return
